@@ -558,15 +558,18 @@ def extra_C10(cases, impl):
         a, b = cases[i].split(" "), cases[i + 1].split(" ")
         if a[0] != "s2m" or b[0] != "m2s" or a[5] != b[5] or any(o.startswith(("PANIC", "CRASH", "NOT-RUN")) for o in impl[i:i + 2]): continue
         inv = {}
-        for line in (impl[i].split(";") if impl[i] else []):
-            rid, runs = line.split("=")
-            for run in (runs.split("+") if runs else []):
-                key, s, e = run.split(":")
-                inv.setdefault(key, []).append("%s:%s:%s" % (rid, s, e))
-        got = {}
-        for line in (impl[i + 1].split(";") if impl[i + 1] else []):
-            key, es = line.split("=")
-            got[key] = sorted(es.split("+") if es else [])
+        try:
+            for line in (impl[i].split(";") if impl[i] else []):
+                rid, runs = line.split("=")
+                for run in (runs.split("+") if runs else []):
+                    key, s, e = run.split(":")
+                    inv.setdefault(key, []).append("%s:%s:%s" % (rid, s, e))
+            got = {}
+            for line in (impl[i + 1].split(";") if impl[i + 1] else []):
+                key, es = line.split("=")
+                got[key] = sorted(es.split("+") if es else [])
+        except ValueError:
+            bad.append((cases[i], "the s2m / m2s output is not of the form id<TAB>mmer:start-end ...")); continue
         if {k: sorted(v) for k, v in inv.items()} != got:
             bad.append((cases[i + 1], "m2s output is not the inversion of the s2m output of the same records"))
     return bad
